@@ -10,7 +10,8 @@ Record case := K { c_eps : Z; c_scale : Z;
                    o_rt_records : bool; o_rt_df : bool; o_rt_timeline : bool;
                    o_tl_eq : bool; o_tl_ne : bool;
                    o_rttm : olines; o_lab : olines; o_uem : olines;
-                   o_strs : list string }.
+                   o_strs : list string;
+                   o_strs_ms : list (option (Z * Z)) }.   (* the printed form of each segment parsed back, in ms *)
 
 Definition check (c : case) : nat :=
   let eps := c_eps c in
@@ -24,6 +25,16 @@ Definition check (c : case) : nat :=
     && Bool.eqb (o_tl_eq c) (list_eqb seqb ta tb) && Bool.eqb (o_tl_ne c) (negb (list_eqb seqb ta tb))
     && olines_eqb (o_rttm c) (rttm_lines eps (c_scale c) a)
     && olines_eqb (o_lab c) (lab_lines eps (c_scale c) a)
-    && olines_eqb (o_uem c) (uem_lines (c_scale c) (c_ua c) ta) in
+    && olines_eqb (o_uem c) (uem_lines (c_scale c) (c_ua c) ta)
+    (* the printed form of a non-empty segment parses back to within one millisecond of both bounds *)
+    && forall2b (fun (x : triple) (p : option (Z * Z)) =>
+                   let s := fst (fst x) in
+                   if nonempty eps s then
+                     match p with
+                     | Some (a_ms, b_ms) => (Z.abs (a_ms * c_scale c - st s * 1000) <=? c_scale c)
+                                            && (Z.abs (b_ms * c_scale c - en s * 1000) <=? c_scale c)
+                     | None => false
+                     end
+                   else true) (c_a c) (o_strs_ms c) in
   let model_eq := list_eqb String.eqb (o_strs c) (map (seg_str eps (c_scale c)) (map (fun x : triple => fst (fst x)) (c_a c))) in
   verdict spec_ok model_eq.
